@@ -2378,8 +2378,8 @@ def verify_hyperparameters(lattice_sizes,
                          "'monotonicities': %s, 'unimodalities': %s" %
                          (i, monotonicities, unimodalities))
 
-  all_trusts = utils.canonicalize_trust((edgeworth_trusts or []) +
-                                        (trapezoid_trusts or [])) or []
+  all_trusts = utils.canonicalize_trust(list(edgeworth_trusts or []) +
+                                        list(trapezoid_trusts or [])) or []
   main_dims, cond_dims, trapezoid_cond_dims = set(), set(), set()
   dim_pairs_direction = {}
   for i, constraint in enumerate(all_trusts):
